@@ -142,6 +142,22 @@ func RunClose(e *Env) {
 		}
 		runCloseCase(e, i, c)
 	}
+	if e.Batch == 0 {
+		// every manager option: a manager created with WithNoConnect must close like any other
+		t := h.Go("Close(no-connect manager)", func() {
+			mgr := puppet.NewManager(gorums.WithNoConnect())
+			if _, err := mgr.NewConfiguration(gorums.WithNodeList([]string{"127.0.0.1:9081", "127.0.0.1:9082"}), &h.QSpec{}); err != nil {
+				panic(err)
+			}
+			mgr.Close()
+			mgr.Close()
+		})
+		hi := h.Await(t, e.W)
+		if hi.Verdict == h.Hung || t.Panic != nil {
+			R.Violate("close-no-connect-manager", fmt.Sprintf("Close of a manager created with WithNoConnect: %s %.300v", hi.Sig, t.Panic), nil)
+		}
+		R.Eval("close|WithNoConnect", true)
+	}
 }
 
 func runCloseCase(e *Env, idx int, c CCase) {
